@@ -77,6 +77,7 @@ def run(cmd, cwd=None, timeout=3600):
 def prepare(prop, thorough=False):
     """Tie A + proof obligations.  Never raises for a broken proof: records it."""
     st = ProofStatus()
+    t_prep = time.time()
     os.makedirs(os.path.join(VERIF, '.cache'), exist_ok=True)
     with open(os.path.join(LEAN, '..', '.lock') if os.environ.get('SEGNO_VERIF_LEAN') else os.path.join(VERIF, '.lock'), 'w') as lock:
         fcntl.flock(lock, fcntl.LOCK_EX)
@@ -127,6 +128,7 @@ def prepare(prop, thorough=False):
             st.broken.append(('forbidden construct in proof sources', '; '.join(hits[:10])))
         st.checker_cmd = ('cd lean && lake build ' + ' '.join(modules) + ' && lake env lean <#print axioms of every theorem>'
                           + (' && lake env leanchecker ' + ' '.join(modules) if thorough else ''))
+    st.prepare_s = round(time.time() - t_prep, 1)
     return st
 
 
@@ -264,7 +266,7 @@ def decide_and_report(prop, tier, seed, st, res, t0, level_text, extra_assumptio
             samples=res.samples[:8] or ['<none>'], exhaustive=res.exhaustive,
             correspondence_checked=res.corr_checked, correspondence_diffs=len(res.corr_diffs),
             judged_violations=len(real), known_findings_hit=res.known_hits, distribution=res.distribution,
-            notes=res.notes, gen=st.gen),
+            notes=res.notes, gen=st.gen, prepare_seconds=getattr(st, 'prepare_s', None)),
         assumptions=[level_text] + list(extra_assumptions),
         wall_s=round(time.time() - t0, 2), violations=len(real))
     os.makedirs(os.path.join(OUT, 'evidence'), exist_ok=True)
